@@ -115,3 +115,18 @@ Theorem C17_concurrent_ring_executions_linearizable : forall ths fin s,
   c17_conc_ok ths fin = true.
 Proof. exact conc_impl_accepted. Qed.
 Print Assumptions C17_concurrent_ring_executions_linearizable.
+
+(* "... and keeps pending ones, which appear in a later export once completed":
+   a pending entry kept by export-and-reset, once its response arrives, is
+   listed with that response by the next export, and handed out by the next
+   export-and-reset. *)
+Theorem C17_pending_kept_then_exported_once_completed : forall t l e r,
+  In e l -> eresp e = None ->
+  let l1 := fst (spec_step t l ExportReset) in
+  let l2 := fst (spec_step (S t) l1 (RecResp (eid e) r)) in
+  snd (spec_step (S (S t)) l2 Export) = OList (map obs_entry l2)
+  /\ In (eid e, Some r) (map obs_entry l2)
+  /\ In (eid e, Some r) (map obs_entry (filter completed l2))
+  /\ snd (spec_step (S (S t)) l2 ExportReset) = OList (map obs_entry (filter completed l2)).
+Proof. exact pending_completed_later. Qed.
+Print Assumptions C17_pending_kept_then_exported_once_completed.
